@@ -462,6 +462,9 @@ pub fn c10(r: &Report) {
         let menu: Vec<Item> = vec![
             Item::uint(7), NULL, Item::text("zz"), Item::bytes(&[1, 2]), Item::array(vec![Item::uint(1), Item::Array(vec![Item::uint(2)], Len::Indef)]),
             Item::Map(vec![(Item::uint(0), Item::Array(vec![], Len::Indef))], Len::Indef), Item::tag(5, Item::array(vec![NULL])), Item::Text(b"ab".to_vec(), StrForm::Indef(vec![(1, W::Imm), (1, W::Imm)])), Item::f64(1.5f64.to_bits()), Item::Simple(32),
+            // "whatever their content": the extremes of every scalar kind
+            Item::uint(u64::MAX), Item::nint(u64::MAX), Item::nint(1 << 63), Item::nint((1 << 63) - 1), Item::Nint(0, W::W8), Item::f16(0x7e00), Item::f32(0x7fc0_0001), Item::Simple(255), Item::Simple(0), UNDEFINED,
+            Item::tag(u64::MAX, Item::uint(0)), Item::bytes(&[0xff; 24]), Item::Bytes(vec![], StrForm::Indef(vec![])), Item::array(vec![]), Item::map(vec![]),
         ];
         let mut n = 0u64;
         let mut ok = 0u64;
